@@ -666,6 +666,17 @@ example :
         ((c.relCiphers[sub]?).map (·.encPos) == some 0) && ((c.relCiphers[sub]?).map (·.decPos) == some 0) &&
         (resendsOf c).all (fun p => !relevant sub p))) = some true := by decide +kernel
 
+/-! non-vacuity of `C07.late_synack_changes_nothing`: after the modelled handshake the client is CONNECTED and no SYN is waiting
+    for its acknowledgement; a crafted SYN/ACK with other parameters leaves it as it was -/
+open Nx.L1 Nx.Prudp in
+example :
+    let env : Env := { C04.toyEnv with s := { fragmentSize := 2, transport := TRANSPORT_TCP, maxSubstreamId := 1 } }
+    let crafted : Packet := { type := TYPE_SYN, flags := FLAG_ACK, maxSubstreamId := 0, minorVersion := 0, supportedFunctions := 0,
+                              connectionSignature := some [9, 9, 9, 9], signature := some [1] }
+    (handshakeRun env ("10.0.0.2", 1) ("10.0.0.1", 2)).map (fun (c, _) =>
+      (c.state == STATE_CONNECTED) && c.ackEvents.all (fun e => e.1.1 != TYPE_SYN) && ((c.handle env 9 crafted).c == c)) = some true := by
+  decide +kernel
+
 /-! ## both directions of a connection at once -/
 
 open Nx.L1 Nx.Prudp in
